@@ -90,6 +90,11 @@ func rootOf(v ssa.Value) Root {
 	case *ssa.UnOp:
 		// pointer loaded from a cell: closure-captured receiver (**T free variable), resolved one level.
 		if x.Op.String() == "*" {
+			if al, ok := x.X.(*ssa.Alloc); ok {
+				if held := uniqueStoreTo(al); held != nil {
+					return rootOf(held)
+				}
+			}
 			if fv, ok := x.X.(*ssa.FreeVar); ok {
 				for i, p := range fv.Parent().FreeVars {
 					if p == fv {
